@@ -47,6 +47,7 @@ def run_case(case):
         if not own and not sim.viol:        # (a monitor of another property stopped the case: state is tainted, no closing verdict)
             # closing phase: observers must converge with the voters
             sim.blocked = set()
+            sim.quiet_config()
             for n in sim.ro:
                 if n not in sim.nodes:
                     sim.start_node(n)
